@@ -88,11 +88,15 @@ let run _args =
       let l1 =
         (match PtnFile.parse_ptn text with
          | Move.Ok g ->
-           let qres = L.map (fun (n, c) ->
+           (* position_at_move = spec_position_at is a theorem (C12_position_at_move_spec); the extracted pair is compared on the
+              first queries of every case only, as a check of the extraction *)
+           let qres = L.mapi (fun i (n, c) ->
              let r = PtnFileInst.ptn_position_at g n c in
-             let sp = PtnFileInst.ptn_spec_at g n c in
-             if pos_res r <> pos_res sp && !spec = None then
-               spec := Some (Printf.sprintf "position_at_move %s = %s but spec walk = %s" (string_of_z n) (pos_res r) (pos_res sp));
+             if i < 3 then begin
+               let sp = PtnFileInst.ptn_spec_at g n c in
+               if pos_res r <> pos_res sp && !spec = None then
+                 spec := Some (Printf.sprintf "position_at_move %s = %s but spec walk = %s" (string_of_z n) (pos_res r) (pos_res sp))
+             end;
              "Q " ^ pos_res r) queries in
            S.concat " ; " (["rok=" ^ rok; "P " ^ enc_struct g; "R " ^ Digest.to_hex (Digest.string (string_of_bytes (PtnFile.render g)));
                             "I " ^ pos_res (PtnFileInst.ptn_initial g); "Y " ^ replay_outcome g] @ qres)
